@@ -158,6 +158,7 @@ func checkC06(r *Run) {
 		}
 	})
 
+	c06Tsconfig(r)
 	// (d) imports whose bindings are only used as types, under the tsconfig settings that govern their elision.
 	// TypeScript: by default ("remove") the statement disappears; with importsNotUsedAsValues "preserve" or "error"
 	// (error = preserve + a type-checker diagnostic) it stays as a side-effect import; `import type` always disappears.
@@ -258,8 +259,14 @@ func checkC06(r *Run) {
 		g := &tsrun{rng: rng}
 		var c tsCase
 		switch i % 7 {
-		case 0, 1:
+		case 0:
 			c = g.EnumCase()
+		case 1:
+			if (i/7)%4 == 0 {
+				c = g.EnumMergeCase()
+			} else {
+				c = g.EnumCase()
+			}
 		case 2:
 			c = g.NamespaceCase()
 		case 3:
